@@ -2174,7 +2174,10 @@ class Cache:
 
         # Remove expired items.
 
-        count = self.expire(now)
+        if retry:
+            count = self.expire(now, retry=True)
+        else:
+            count = self.expire(now)
 
         # Remove items by policy.
 
